@@ -243,19 +243,30 @@ def fuzzy_regex(anchor):
 
 
 def fuzzy_locate(text, anchor):
-    """unique identifier-wildcard match of `anchor` in `text`: (start, length, {old name: new name}) or None"""
+    """identifier-wildcard match of `anchor` in `text` that renames the fewest identifiers (must be the unique best):
+    (start, length, {old name: new name}) or None"""
     try:
         rx, names = fuzzy_regex(anchor)
         ms = list(re.finditer(rx, text))
     except re.error:
         return None
-    if len(ms) != 1 or not names:
+    if not ms or not names:
         return None
-    m = ms[0]
-    ren = {old: m.group(g) for old, g in names.items() if m.group(g) != old}
-    if any(v in RUST_KW for v in ren.values()):
+    scored = []
+    for m in ms:
+        ren = {old: m.group(g) for old, g in names.items() if m.group(g) != old}
+        if any(v in RUST_KW for v in ren.values()):
+            continue
+        scored.append((len(ren), m.start(), m.end() - m.start(), ren))
+    if not scored:
         return None
-    return m.start(), m.end() - m.start(), ren
+    scored.sort(key=lambda t: t[0])
+    if len(scored) > 1 and scored[1][0] == scored[0][0]:
+        return None
+    # more than half of the names changed: not a rename of this line
+    if scored[0][0] * 2 > len(names) and scored[0][0] > 1:
+        return None
+    return scored[0][1], scored[0][2], scored[0][3]
 
 
 def apply_renames(txt, ren):
@@ -272,7 +283,7 @@ def rename_spec(spec, ren):
         return spec
     r = lambda t: apply_renames(t, ren)
     sec = lambda d: (dict(d, text=r(d['text'])) if d else d)
-    return dict(spec, requires=[sec(c) for c in spec['requires']], ensures=[sec(c) for c in spec['ensures']],
+    return dict(spec, result=ren.get(spec.get('result'), spec.get('result')), requires=[sec(c) for c in spec['requires']], ensures=[sec(c) for c in spec['ensures']],
                 decreases=sec(spec['decreases']), entry=sec(spec['entry']), tail=sec(spec['tail']),
                 loops={k: sec(v) for k, v in spec['loops'].items()}, closures={k: sec(v) for k, v in spec['closures'].items()},
                 ats=[sec(a) for a in spec['ats']])
@@ -763,6 +774,13 @@ class Weaver:
                 rx = re.compile(r'\s*'.join(re.escape(tok) for tok in old[1].split()))
                 ms = list(rx.finditer(mt.text))
                 if not ms:
+                    fz = fuzzy_locate(mt.text, old[1])
+                    if fz:
+                        sub_renames.update(fz[2])
+                        new_ = apply_renames(new, fz[2])
+                        log.append((rid, '%s  =>  %s  (x1, identifiers renamed: %s)' % (norm(mt.text[fz[0]:fz[0] + fz[1]]), norm(new_), ', '.join('%s -> %s' % kv for kv in sorted(fz[2].items())))))
+                        mt.replace(fz[0], fz[0] + fz[1], new_)
+                        continue
                     log.append((rid, 'ANCHOR LOST: %s' % norm(old[1])))
                     continue
                 for m_ in reversed(ms):
@@ -828,10 +846,9 @@ class Weaver:
             if not isinstance(key_, int):
                 kt0 = key_.partition('#')[0]
                 if not any(norm(kt0) in norm(mt.text[kw_:br_]) for kw_, br_, kd_ in loops0):
-                    for kw_, br_, kd_ in loops0:
-                        fz = fuzzy_locate(norm(mt.text[kw_:br_]), norm(kt0))
-                        if fz:
-                            renames.update(fz[2])
+                    cand = sorted([(len(fz_[2]), k_, fz_[2]) for k_, (kw_, br_, kd_) in enumerate(loops0) for fz_ in [fuzzy_locate(norm(mt.text[kw_:br_]), norm(kt0))] if fz_], key=lambda t: t[:2])
+                    if cand and (len(cand) == 1 or cand[1][0] > cand[0][0]):
+                        renames.update(cand[0][2])
         if renames:
             log.append(('fuzzy', 'identifier renames applied to the woven proof aids: %s' % ', '.join('%s -> %s' % kv for kv in sorted(renames.items()))))
         # text anchors
@@ -874,7 +891,9 @@ class Weaver:
                 kt, _, kn = key_.partition('#')
                 hits = [i_ for i_, (kw_, br_, kd_) in enumerate(loops) if norm(kt) in norm(mt.text[kw_:br_])]
                 if not hits:
-                    hits = [i_ for i_, (kw_, br_, kd_) in enumerate(loops) if fuzzy_locate(norm(mt.text[kw_:br_]), norm(kt))]
+                    cand = [(len(fz_[2]), i_) for i_, (kw_, br_, kd_) in enumerate(loops) for fz_ in [fuzzy_locate(norm(mt.text[kw_:br_]), norm(kt))] if fz_]
+                    cand.sort()
+                    hits = [cand[0][1]] if cand and (len(cand) == 1 or cand[1][0] > cand[0][0]) else []
                     if hits:
                         fuzzy.append('loop %r re-anchored on %r' % (key_, norm(mt.text[loops[hits[0]][0]:loops[hits[0]][1]])))
                 if kn and kn.isdigit() and len(hits) >= int(kn):
